@@ -36,9 +36,9 @@ class Unsupported(Exception):
 class SymIndex(Unsupported):
     """memory operand whose index register is symbolic: (constant part of the address, index value, scale)"""
 
-    def __init__(self, const, idx, scale, insn):
+    def __init__(self, const, idx, scale, insn, reg=None, regw=64):
         Unsupported.__init__(self, "symbolic index address in %r" % (insn,))
-        self.const, self.idx, self.scale = const, idx, scale
+        self.const, self.idx, self.scale, self.reg, self.regw = const, idx, scale, reg, regw
 
 
 class Op:
@@ -304,6 +304,6 @@ class State:
             if REGMAP[o.index][1] == 32:
                 x = bv.extract(x, 31, 0)
             if not bv.is_c(x):
-                raise SymIndex(a & bv.mask(64), x, o.scale, insn)
+                raise SymIndex(a & bv.mask(64), x, o.scale, insn, REGMAP[o.index][0], REGMAP[o.index][1])
             a += x * o.scale
         return a & bv.mask(64)
